@@ -56,7 +56,7 @@ def feasible(mp, ex, pc, extra=()):
 
 def result_of(name, r, bad, paths, queries, t0, replay=None):
     r.update(paths=paths, queries=queries, wall_s=round(time.time() - t0, 2))
-    if paths == 0:
+    if paths == 0 and not bad:
         r.update(status="inconclusive", reason="no feasible path explored (vacuity)")
         return r
     r["vacuity_ok"] = True
@@ -240,6 +240,8 @@ def build(pid, P, R, tier, log_dir):
     obs = []
     if pid in ("C12", "C15"):
         obs.append(cargo_toml_ob(P, R, mp, log_dir, 2 if tier == "quick" else 3, pid))
+    if pid == "C12":
+        obs.append(mod_decls_ob(P, R, mp, log_dir, 2 if tier == "quick" else 3))
     if pid == "C15":
         obs.append(add_rust_crate_ob(P, R, mp, log_dir))
     if pid == "C16":
@@ -637,7 +639,7 @@ def add_rust_crate_ob(P, R, mp, log_dir):
                 bad.append(f"`{c}` is recorded as {value[:60]} / {spec}, documented pin {KNOWN_GOOD[c]}")
         for c in KNOWN_GOOD:
             if outs and c not in seen:
-                bad.append(f"known-good crate `{c}` has no accepting path")
+                bad.append(f"known-good crate `{c}` has no accepting path (the lookup is no longer a chain of comparisons with the documented names)")
         r["table"] = len(seen)
         return result_of("X-add_rust_crate", r, bad, n, len(outs), t0, lambda: cargo_native(log_dir, "C15"))
     return mp.XOb("X-add_rust_crate", statement, "", run)
@@ -828,3 +830,144 @@ def run_tests_ob(P, R, mp, log_dir, bound):
                 bad.append(f"exit status {val[:24]} although failed={failed_any} (runs {[(k, rs[rt[1]]) for k, rt in runs]})")
         return result_of("X-run_tests", r, bad, n, len(outs), t0, None)
     return mp.XOb("X-run_tests", statement, "", run)
+
+
+def mod_decls_ob(P, R, mp, log_dir, bound):
+    statement = ("ProjectGenerator::generate_multi: the `mod <name>;` declarations inserted into main.rs are the same sequence whichever order the module HashMap yields "
+                 "its entries in (they are sorted by name), and there is exactly one per module")
+
+    def run():
+        t0 = time.time()
+        from symex import Adt
+        f = only_fn(P, ">::generate_multi")
+        runs = []
+        for rev in (False, True):
+            ex = cargo_executor(P, R, bound, rev)
+            ex.summarize = tuple(ex.summarize) + (r"generate_cargo_toml$", r"fs::", r"Path", r"str>::find", r"String::insert", r"String::push_str$", r"fmt::format", r"^format$")
+
+            def map_keys(ex_, callee, args, st, _ex=ex):
+                m = ex_.deref(args[0], st)
+                if not isinstance(m, symex.Sym):
+                    raise Unsupported(f"keys of {m!r}")
+                out = []
+                for n_, st2 in mirx.symmap_entries(ex_, m, st):
+                    order = list(range(n_))
+                    if ex_.symmap_reverse:
+                        order.reverse()
+                    out.append(("return", mirx.SeqIter(Adt("Vec", "lit", [mirx.symmap_key(ex_, m, j) for j in order]), 0, n_), None, st2))
+                return out
+
+            def collect_keys(ex_, callee, args, st):
+                it = ex_.deref(args[0], st)
+                if not isinstance(it, mirx.SeqIter):
+                    raise Unsupported(f"collect of {it!r}")
+                return [("return", Adt("Vec", "lit", [mirx.seq_elem(ex_, it.seq, k) for k in range(it.lo, it.hi)]), None, st)]
+
+            def collect_string(ex_, callee, args, st):
+                """`iter.map(f).collect::<String>()`: the pieces in order (event CONCAT), result opaque"""
+                mi = ex_.deref(args[0], st)
+                if not isinstance(mi, mirx.MapIter):
+                    raise Unsupported(f"collect::<String> of {mi!r}")
+                fcl = mirx._closure_fn(ex_, mi.ctext)
+                res, work = [], [(mi.inner.lo, [], st)]
+                while work:
+                    k, acc, s1 = work.pop()
+                    if k >= mi.inner.hi:
+                        s2 = s1.fork()
+                        s2.events.append(("CONCAT", tuple(acc), "concat"))
+                        res.append(("return", Opaque("mods"), None, s2))
+                        continue
+                    for o in ex_.run(fcl, [mi.env, mirx.iter_elem(ex_, mi.inner, k)], {}, 1, s1):
+                        if o.kind != "return":
+                            res.append((o.kind, o.value, o.info, o.state))
+                        else:
+                            # the piece is the result of format!("mod {};\n", name): identify it by the name it displays
+                            shown = [e for e in o.state.events if e[0].endswith("new_display")]
+                            work.append((k + 1, acc + [shown[-1][1][0] if shown else mirx.show(o.value, ex_, o.state)], o.state))
+                return res
+
+            def slice_iter_any(ex_, callee, args, st):
+                v = ex_.deref(args[0], st)
+                if isinstance(v, Adt) and v.ty == "Vec":
+                    return [("return", mirx.SeqIter(v, 0, len(v.fields)), None, st)]
+                return mirx.st_slice_iter(ex_, callee, args, st)
+            def map_is_empty(ex_, callee, args, st):
+                m = ex_.deref(args[0], st)
+                if not isinstance(m, symex.Sym):
+                    raise Unsupported(f"is_empty of {m!r}")
+                return [("return", S("bool", "true" if n_ == 0 else "false"), None, st2) for n_, st2 in mirx.symmap_entries(ex_, m, st)]
+            first = {
+                r"HashMap::<(std::string::)?String, (std::string::)?String>::is_empty$": map_is_empty,
+                r"HashMap::<(std::string::)?String, (std::string::)?String>::keys$": map_keys,
+                r"^<(std::collections::)?hash_map::Keys<.*> as (std::iter::)?Iterator>::collect::<(std::vec::)?Vec<.*>>$": collect_keys,
+                r"^<Map<.*> as (std::iter::)?Iterator>::collect::<(std::string::)?String>$": collect_string,
+                r"^(core|std)::slice::<impl \[.*\]>::iter$": slice_iter_any,
+            }
+            ex.state_intrinsics = {**first, **{k: v for k, v in ex.state_intrinsics.items() if k not in first}}
+            g = ex.sym_value("backend::project::ProjectGenerator", "g")
+            mods = ex.sym_value("std::collections::HashMap<std::string::String, std::string::String>", "mods")
+            outs = ex.run(f, [g, Opaque("main_code"), mods])
+            runs.append((ex, outs))
+        exA, exB = runs[0][0], runs[1][0]
+        r = {"id": "X-mod_decls", "engine": "E2-X mirsmt", "statement": statement,
+             "bound": f"0..={bound} modules with symbolic names; the file system, Cargo.toml generation and the text surgery on main.rs are uninterpreted; the map is iterated in both directions",
+             "functions_encoded": [n + " (MIR)" for n in exA.encoded]}
+        bad, n, q = [], 0, 0
+        infos = []
+        for ex, outs in runs:
+            prefetch(mp, ex, [o.pc for o in outs])
+            info = []
+            for o in outs:
+                if not feasible(mp, ex, o.pc):
+                    continue
+                if o.kind != "return":
+                    if "attempt to compute" in str(o.info):
+                        continue      # position arithmetic on uninterpreted `find` / `len` answers (bounded by the text's length in reality): outside
+                    bad.append(f"{o.kind}: {o.info}")
+                    continue
+                nm = o.state.facts.get("len:mods")
+                cc = [e for e in o.state.events if e[0] == "CONCAT"]
+                val = mirx.show(o.value, ex, o.state)
+                if nm and val.startswith("Result::Ok") and (len(cc) != 1 or len(cc[0][1]) != nm or len(set(cc[0][1])) != nm):
+                    bad.append(f"{nm} modules but the declarations are {cc[0][1] if cc else None}")
+                info.append((o, cc[0][1] if cc else None, nm))
+            infos.append(info)
+        n = len(infos[0])
+        for d in exB.enc.decls:
+            if d not in exA.enc.decls:
+                exA.enc.decls.append(d)
+        for s_ in exB.enc.side:
+            if s_ not in exA.enc.side:
+                exA.enc.side.append(s_)
+        cand = [(oa, la, ob, lb) for (oa, la, na) in infos[0] for (ob, lb, nb) in infos[1] if na == nb and (na or 0) >= 2 and la is not None and lb is not None and la != lb]
+        prefetch(mp, exA, [list(oa.pc) + list(ob.pc) for (oa, la, ob, lb) in cand])
+        for (oa, la, ob, lb) in cand:
+            q += 1
+            if feasible(mp, exA, list(oa.pc) + list(ob.pc)):
+                bad.append(f"the order of the `mod` declarations follows the map's iteration order: {la} vs {lb}")
+                break
+        r["pairs_compared"] = len(cand)
+        return result_of("X-mod_decls", r, bad, n, q + sum(len(i) for i in infos), t0, lambda: mods_native(log_dir))
+    return mp.XOb("X-mod_decls", statement, "", run)
+
+
+def mods_native(log_dir):
+    """generate_multi in several processes: the `mod` lines of main.rs must be identical and complete -> (broken?, text)"""
+    import kani
+    problems = []
+    for prof in ("dev", "release"):
+        binp = kani.build_replay(prof, True, log_dir)
+        seen = []
+        for k in range(5 if prof == "dev" else 2):
+            rc, out, _, to = common.run([binp, "cargotoml", os.path.join(common.WORK_DIR, "cargotoml")], timeout=120)
+            m = re.search(r"^MODS multi (.*)$", out, re.M)
+            if to or rc != 0 or not m:
+                raise Inconclusive(f"replay cargotoml failed (rc={rc}): {out[-200:]}")
+            seen.append(m.group(1))
+        if len(set(seen)) > 1:
+            problems.append(f"[{prof}] main.rs differs between runs of the same project: {seen[0][:80]} vs {next(x for x in seen if x != seen[0])[:80]}")
+        names = [x.replace("pub ", "").replace("mod ", "").rstrip(";") for x in seen[0].split("|")]
+        want = ["alpha", "beta", "config", "db", "handlers", "models", "utils", "zeta"]
+        if sorted(names) != want:
+            problems.append(f"[{prof}] main.rs declares {names}, the project has {want}")
+    return bool(problems), "; ".join(problems[:3]) or "generate_multi: the same eight `mod` lines in every process"
